@@ -56,6 +56,20 @@ def stepHImpl (key : α → κ) (pool : List (Hash α β κ)) : HOp α β → Li
     match pool[i]? with
     | some h => (pool, .entries h.entries)
     | none => (pool, .badRef)
+  | .mput i e =>
+    match pool[i]? with
+    | some h =>
+      match h.putM key e.1 e.2 with
+      | some n => (pool.set i n, .made)
+      | none => (pool, .fault)
+    | none => (pool, .badRef)
+  | .mputAll i j =>
+    match pool[i]?, pool[j]? with
+    | some h, some o =>
+      match h.putAll key o.entries with
+      | some n => (pool.set i n, .made)
+      | none => (pool, .fault)
+    | _, _ => (pool, .badRef)
 
 def runHImpl (key : α → κ) (pool : List (Hash α β κ)) : List (HOp α β) → List (HObs α β) × List (Hash α β κ)
   | [] => ([], pool)
